@@ -258,13 +258,17 @@ def oracle(case, recs, mrecs):
             elif last_r is not None and last_r[1] == "0" and v != "null" and not (t.file_revisit and not t.entity_cycle and t.resolvable):
                 problems.append(("F_model_after_R_false", "%s: resolveImports returned false but flattenModel returned a model" % label, t))
         elif r[0] == "?":
-            problems.append(("output", "unexpected output token %s" % r[1], cur[0] if cur else None))
+            if r[1].startswith(("CRASH", "THROW", "TIMEOUT")):
+                problems.append(("R_no_return", "the driver died outside the guarded calls (parse / resolveImports): %s" % r[1], None))
+            else:
+                problems.append(("output", "unexpected output token %s" % r[1], cur[0] if cur else None))
     return problems
 
 
 # ----------------------------------------------------------------------------------------------- run
 
-def run_drivers(ctx, drv, mdl, table, cases, tag):
+def run_drivers(ctx, drv, mdl, table, cases, tag, fixes=""):
+    """runs the C++ driver (unless drv is None) and the extracted model (variant `fixes`) on the cases, sharded"""
     work = os.path.join(ctx.workdir, tag)
     shutil.rmtree(work, ignore_errors=True)
     os.makedirs(work)
@@ -273,6 +277,7 @@ def run_drivers(ctx, drv, mdl, table, cases, tag):
     nsh = min(vf.NCPU, max(1, len(cases) // 50))
     procs = []
     env = dict(os.environ)
+    env["C07_FIXES"] = fixes
     for k in range(nsh):
         part = cases[k::nsh]
         cp = os.path.join(work, "cases.%d" % k)
@@ -285,7 +290,7 @@ def run_drivers(ctx, drv, mdl, table, cases, tag):
         co = open(os.path.join(work, "impl.%d" % k), "wb")
         mo = open(os.path.join(work, "model.%d" % k), "wb")
         me = open(os.path.join(work, "model.%d.err" % k), "wb")
-        pc = subprocess.Popen([drv, "run", tpath, cp, sd], stdout=co, stderr=subprocess.DEVNULL)
+        pc = subprocess.Popen([drv, "run", tpath, cp, sd] if drv else ["true"], stdout=co, stderr=subprocess.DEVNULL)
         pm = subprocess.Popen([mdl, tpath, cp], stdout=mo, stderr=me, env=env)
         procs.append((k, part, pc, pm, co, mo, me))
     out = []
@@ -337,6 +342,11 @@ def build_cases(ctx, table):
     for n, g in resolvable[: (200 if quick else 2000)]:
         cases.append(base_case(table, g, True, "enum%d/grouped" % n, group=True))
         hist["grouped"] += 1
+    # (near) copies of the origin model: the Model::equals disjunct of the cycle test
+    for label, g in ig.twin_graphs():
+        for strict in (True, False):
+            cases.append(base_case(table, g, strict, label))
+            hist["twin"] += 1
     # larger random graphs
     rng = ctx.rng
     for n in range(1500 if quick else 30000):
@@ -371,7 +381,7 @@ def run_paths(ctx, drv, mdl):
     for _ in range(2000 if ctx.quick() else 40000):
         pairs.append(("".join(rng.choice(alpha) for _ in range(rng.randint(0, 7))),
                       "".join(rng.choice(alpha) for _ in range(rng.randint(0, 7)))))
-    cf = os.path.join(ctx.workdir, "paths.cases")
+    cf = os.path.join(ctx.workdir, "paths-%d.cases" % os.getpid())
     with open(cf, "w") as f:
         for u, b in pairs:
             f.write("%s %s\n" % (u.encode().hex(), b.encode().hex()))
@@ -409,22 +419,67 @@ def run(ctx):
     cases, hist, enum_info = build_cases(ctx, table)
     ctx.log("cases: %d %s; enumerated graphs <= %d files, <= %d entities: %d (%d resolvable)" %
             ((len(cases), hist) + enum_info))
-    results = run_drivers(ctx, drv, mdl, table, cases, "run")
-    evaluate(ctx, results, hist, enum_info, table)
+    results = run_drivers(ctx, drv, mdl, table, cases, "run-%d" % os.getpid(), FIXES_APPLIED)
+
+    def rerun(sub, variant):
+        return [ml for _, _, ml in run_drivers(ctx, None, mdl, table, sub, "rerun-%d" % os.getpid(), variant)]
+    evaluate(ctx, results, hist, enum_info, table, rerun)
     npaths = run_paths(ctx, drv, mdl)
     ctx.cov["evaluations"] += npaths
     ctx.cov["input_distribution"]["path_string_cases"] = npaths
 
 
-def evaluate(ctx, results, hist, enum_info, table):
+# the model as the code is now; set to "pop", "nullref" or "pop,nullref" when fixes/C07-*.diff are committed to /repo
+FIXES_APPLIED = os.environ.get("C07_FIXES", "")
+REPAIR_VARIANTS = ["pop", "nullref", "pop,nullref"]
+
+
+def judge(ctx, case, cl, ml):
+    """-> (mismatch, unexplained problem texts, [(finding id, text)], waived)   (no side effects)"""
+    recs, mrecs = parse_line(cl), parse_line(ml)
+    problems = oracle(case, recs, mrecs)
+    unexplained, hits = [], []
+    for kind, text, t in problems:
+        ks = [k for k in (matching_findings(t, kind) if t is not None else []) if k in ctx.known]
+        for k in ks:
+            hits.append((k, "%s [%s]" % (text, case.label)))
+        if not ks:
+            unexplained.append(text)
+    # correspondence: exact, except that the flattening proper (after the pre-checks) is not modelled
+    mismatch = False
+    if canon(cl) != canon(ml):
+        if len(recs) != len(mrecs):
+            mismatch = True
+        for r, mr in zip(recs, mrecs):
+            if canon(" ".join(map(str, r))) == canon(" ".join(map(str, mr))):
+                continue
+            if r[0] == "F" and mr[0] == "F" and mr[1] == "model" and r[1] not in ("null", "model"):
+                continue          # crash / hang inside the flattening proper: judged by the oracle
+            mismatch = True
+    waived = False
+    if mismatch and not unexplained:
+        # inside a known-finding class the implementation may behave as the (faithful, defective) model or as the
+        # property demands: a repair of the defect in /repo must not raise an alarm
+        ks = set()
+        for fs_, fr_, lb_ in case.phases:
+            ks |= set(matching_findings(ig.truth(fs_)))
+        if any(k in ctx.known for k in ks):
+            mismatch = False
+            waived = True
+    return mismatch, unexplained, hits, waived
+
+
+def evaluate(ctx, results, hist, enum_info, table, rerun):
+    """rerun(cases, fixes) -> model lines of the repaired model variant `fixes` for those cases"""
     nbad = 0
+    waived = 0
     nontrivial = set()
     dist = {"resolve_true": 0, "resolve_false": 0, "flatten_model": 0, "flatten_null": 0, "crash_tokens": 0,
             "depth": {}, "files_in_closure": {}, "steps": 0}
     rules = {}
     known_counts = {}
+    verdicts = []
     for case, cl, ml in results:
-        ccl, cml = canon(cl), canon(ml)
         recs = parse_line(cl)
         dist["steps"] += len(recs)
         for r in recs:
@@ -443,30 +498,30 @@ def evaluate(ctx, results, hist, enum_info, table):
         dist["files_in_closure"][nfc] = dist["files_in_closure"].get(nfc, 0) + 1
         if t0.depth >= 1:
             nontrivial.add(case.line())
-        mrecs = parse_line(ml)
-        problems = oracle(case, recs, mrecs)
-        # a failure of the property: known finding class or violation
-        unexplained = []
-        for kind, text, t in problems:
-            ks = matching_findings(t, kind) if t is not None else []
-            hit = False
-            for k in ks:
-                if ctx.known_finding(k, "%s [%s]" % (text, case.label)):
-                    known_counts[k] = known_counts.get(k, 0) + 1
-                    hit = True
-            if not hit:
-                unexplained.append(text)
-        # correspondence: exact, except that the flattening proper (after the pre-checks) is not modelled
-        mismatch = False
-        if ccl != cml:
-            if len(recs) != len(mrecs):
-                mismatch = True
-            for r, mr in zip(recs, mrecs):
-                if canon(" ".join(map(str, r))) == canon(" ".join(map(str, mr))):
-                    continue
-                if r[0] == "F" and mr[0] == "F" and mr[1] == "model" and r[1] not in ("null", "model"):
-                    continue          # crash / hang inside the flattening proper: judged by the oracle above
-                mismatch = True
+        verdicts.append([case, cl, ml, judge(ctx, case, cl, ml), ""])
+    # cases that are not in order against the model of the code as it is: does the implementation behave like the model
+    # of one of the prepared repairs (fixes/C07-*.diff applied to /repo but FIXES_APPLIED not switched yet)?
+    doubtful = [v for v in verdicts if v[3][0] or v[3][1]]
+    agrees_with_repair = {}
+    if doubtful and len(doubtful) <= 5000:
+        for variant in REPAIR_VARIANTS:
+            if variant == FIXES_APPLIED or not doubtful:
+                continue
+            lines = rerun([v[0] for v in doubtful], variant)
+            still = []
+            for v, ml2 in zip(doubtful, lines):
+                j = judge(ctx, v[0], v[1], ml2)
+                if not j[0] and not j[1]:
+                    v[2], v[3], v[4] = ml2, j, variant
+                    agrees_with_repair[variant] = agrees_with_repair.get(variant, 0) + 1
+                else:
+                    still.append(v)
+            doubtful = still
+    for case, cl, ml, (mismatch, unexplained, hits, w), variant in verdicts:
+        for k, text in hits:
+            if ctx.known_finding(k, text):
+                known_counts[k] = known_counts.get(k, 0) + 1
+        waived += 1 if w else 0
         if (mismatch or unexplained) and os.environ.get("C07_DEBUG"):
             with open(os.path.join(ctx.workdir, "bad.jsonl"), "a") as dbg:
                 d = case.to_json()
@@ -486,6 +541,10 @@ def evaluate(ctx, results, hist, enum_info, table):
             ctx.violation("C07 %s: %s" % (case.label, " / ".join(what)), "case_%d.json" % nbad, content)
         elif mismatch or unexplained:
             nbad += 1
+    if agrees_with_repair:
+        ctx.notes.append("the implementation behaves like the model of the prepared repair(s) %s on %s cases where it differs "
+                         "from the model of the code as recorded (FIXES_APPLIED=%r): switch FIXES_APPLIED in checks/c07.py"
+                         % (sorted(agrees_with_repair), agrees_with_repair, FIXES_APPLIED))
     ctx.cov["evaluations"] = len(results)
     ctx.cov["distinct_nontrivial"] = len(nontrivial)
     ctx.cov["exhaustive"] = True
@@ -500,7 +559,8 @@ def evaluate(ctx, results, hist, enum_info, table):
                        "least one import is followed into another file; distinct by script text" % enum_info)
     ctx.cov["samples"] = [results[i][0].to_json()["script"] for i in (0, len(results) // 2, len(results) - 1)] if results else []
     ctx.cov["input_distribution"] = {"case_kinds": hist, "outcomes": dist, "issue_rules": rules,
-                                     "known_finding_hits": known_counts, "disagreements_or_unexplained": nbad}
+                                     "known_finding_hits": known_counts, "disagreements_or_unexplained": nbad,
+                                     "disagreements_waived_inside_known_finding_classes_where_the_property_holds": waived}
     ctx.cov["traces_validated_against_impl"] = len(results)
     ctx.log("outcomes %s rules %s known %s bad %d" % ({k: v for k, v in dist.items() if not isinstance(v, dict)}, rules, known_counts, nbad))
 
